@@ -2,6 +2,7 @@ import sys, os, json
 from dev_try import load
 import pretty
 N = int(sys.argv[1]); trait = sys.argv[2]
+import traceback
 prog = load()
 job = {'kind': 'custom', 'name': 'pretty', 'N': N, 'trait': trait, 'cfg': 'dev', 'props': ['C14'], 'family': 'tree', 'rset': [0, 1], 'fix_x': 1, 'alt': 0}
 if len(sys.argv) > 3: job['fix_parent'] = json.loads(sys.argv[3])
